@@ -3,13 +3,27 @@ PROP = dict(
         pkg="c06", level="exploration",
         technique=("schedule-owning PBT (rapid) of the real sync.Synchronizer + Blockchain against a gated DataSource; "
                    "the script also holds/releases the store step's tail through the public EventListener hook; "
-                   "history oracles via plugin/listener/feeds (announced chain replayed from both feeds), count-bounded convergence, -race"),
+                   "the answer alphabet includes wrong-but-valid answers (genuine blocks that are not the one asked for); "
+                   "history oracles via plugin/listener/feeds (announced chain replayed from both feeds, every store announced once per channel and extending the head), "
+                   "count-bounded convergence, -race"),
         level_text=("Exploration: hundreds (quick) / thousands (thorough) of generated source scripts; the environment's schedule "
-                    "(which request is answered when and how, when the source reorgs, how long a store step stays between its commit and its "
+                    "(which request is answered when and how - correctly, with an error, a corrupted copy, a stale/lagging head or a genuine block of "
+                    "another height/fork -, when the source reorgs, how long a store step stays between its commit and its "
                     "notifications) is owned by the generator, other Go-runtime scheduling inside the pipeline is not; oracles are schedule independent; samples the space, does not prove absence."),
         rule=("chain generator (all tx kinds, 4 protocol versions) builds a source chain of 1-10 blocks, the node starts with 0..all of them; "
               "rapid script of 5-50 steps, each either answering any parked BlockByNumber/BlockHeaderLatest request (correct answer from the "
-              "CURRENT chain, injected error, one of 11 corruptions from the C02 table, a head the source had earlier) or mutating the source "
+              "CURRENT chain, injected error, one of 11 corruptions from the C02 table, a head the source had earlier, the header of a canonical block "
+              "below the tip (lagging replica, 10% of the latest-header answers), or - 18% of the block answers, 32% when the request is above the source's "
+              "tip - a WRONG-BUT-VALID answer: a genuine block, valid in isolation, that is not the one asked for; its kind is drawn uniformly among the "
+              "kinds available at that moment: held-head (the node's current head: stale replica answering h+1 with h), held-below-head, "
+              "canonical-lower-not-held, canonical-higher, abandoned-fork-same-height (genuine block of an abandoned fork at the requested height, also the very "
+              "block the node holds there), abandoned-fork-other-height, state-update-of-other-block (the requested block with the genuine state update, and "
+              "with or without the classes, of any other block ever canonical); such answers are served to fetchers (any of the 1-4 in flight) and to the revert "
+              "task's comparison fetch; measured over 1350 quick-tier cases: 63% of the cases serve >= 1 wrong-but-valid block, 38% a block the node already "
+              "holds, 28% held-head (18% as the answer to the request for the next height), 19% held-below-head, 20% canonical-lower, 13% canonical-higher, "
+              "7% abandoned same height, 17% abandoned other height, 17% state-update-of-other-block, 12% an abandoned block that extends the node's head "
+              "(6% of the cases really store one), 3% to a comparison fetch, 13% while a store step is held; labels wrong-valid:* and wrong-valid-fate:*) "
+              "or mutating the source "
               "(extend 1-3, reorg with any fork point incl. genesis, shorten), or arming a hold (22% of the steps while none is armed or held; "
               "either the next store step or the next store step that brings the node level with the source): the armed store step blocks in the "
               "public listener hook OnSyncStepDone(OpStore), i.e. after the block is committed and before reorg/new-head notifications and the "
@@ -22,11 +36,17 @@ PROP = dict(
               "nt:reorg-at-or-below-held-store-step), and with a reorg check that sees the replaced head while the step is held "
               "(held:reorg-check-sees-replaced-head-while-store-held). "
               "Non-trivial = a reorg/shorten applied while >= 1 request is parked or at/below a held store step, or a fetch error answered when "
-              "remote height = local height, or a corrupted block served. Distinct = distinct SHA-256 of the rendered script."),
+              "remote height = local height, or a corrupted block served, or a wrong-but-valid block served. Distinct = distinct SHA-256 of the rendered script."),
         assumptions=["Go-runtime interleavings inside the fetch/verify/store pipeline are sampled (GOMAXPROCS 2-4, -race), not enumerated",
                      "abandoned blocks never become canonical again (every reorg produces fresh blocks)",
                      "a rollback of the source that is never followed by growth is indistinguishable from a lagging replica: the source grows by one block before it is frozen",
                      "a self-consistent forged block (recomputed hash, right number) is never served to revertTask's hash-comparison fetch: nothing short of re-executing it distinguishes it from a real fork block",
+                     "a genuine block of an abandoned fork at the requested height is not served to revertTask's comparison fetch while the node's block at that height is canonical (same reason; label comparison-fetch-genuine-fork-block-redirected)",
+                     "while the finding c06-revert-without-confirming-replacement is recorded as known, a wrong-but-valid block of number n is only served to a fetcher if n is at or below the node's head, n = 0, "
+                     "its parent is the canonical block n-1, or it extends the node's head: any other genuine fork block could reach the store step on top of a canonical head, where the parent mismatch makes "
+                     "revertTask revert that head without asking the source (triggers (b)/(c) of the finding with a genuine instead of a forged block); left-out candidates are counted as excluded",
+                     "the class definitions handed over with a block are exactly the classes its own state update introduces (the production adapter sync/data_source.go derives the set from the state update; "
+                     "Store registers every class it is handed, so 'genuine block + genuine state update + classes of another block' is not generated)",
                      "pre_confirmed polling is disabled (poll interval 0) as in the synchronizer's own tests",
                      "a held store step models a slow EventListener / a descheduled store goroutine; a hold ends by script, when no request is parked, at the end of the script, on cancellation, "
                      "or after a 60 s real-time guard (never reached so far; it would only make the case inconclusive)",
